@@ -35,6 +35,28 @@ class PathResult:
         return list(self.path.pc)
 
 
+_ENGINE_TYPE_NAMES = None
+
+
+def _engine_level_type_error(e):
+    global _ENGINE_TYPE_NAMES
+    if getattr(e, "cls_name", None) not in ("TypeError", "AttributeError") or getattr(e, "from_program", False):
+        return False
+    if _ENGINE_TYPE_NAMES is None:
+        import re
+        from .objects import Ext
+        names = {"Sym", "Tensor", "SStr", "Obj", "FuncVal", "BoundMethod", "Builtin", "ClassVal", "GeneratorVal", "RangeVal", "PySet", "GenericAlias", "PropertyVal", "ModuleVal", "ExtModule"}
+
+        def sub(c):
+            for k in c.__subclasses__():
+                names.add(k.__name__)
+                sub(k)
+        sub(Ext)
+        _ENGINE_TYPE_NAMES = re.compile(r"\b(" + "|".join(sorted(map(re.escape, names))) + r")\b")
+    msg = " ".join(a for a in (getattr(e, "exc_args", ()) or ()) if isinstance(a, str))      # only the engine's own plain messages
+    return bool(_ENGINE_TYPE_NAMES.search(msg))
+
+
 class Session:
     def __init__(self, prop_id, models_factory=None, src_root=None):
         self.prop_id = prop_id
@@ -74,7 +96,14 @@ class Session:
                 v = run(I)
                 res = PathResult("return", value=v, path=I.path, interp=I)
             except PyExc as e:
-                res = PathResult("raise", exc=e, path=I.path, interp=I)
+                if _engine_level_type_error(e):
+                    # a TypeError / AttributeError whose message names a value class of THIS interpreter (Sym, Tensor, a model
+                    # object): the abstraction handed the program a value of the wrong shape for this formulation of the code;
+                    # Python never raises such a message.  Out of reach, not a violation.
+                    res = PathResult("unsupported", path=I.path, interp=I, reason=f"abstract value where the code needs a concrete one: {e!r}"[:200])
+                    self.unsupported.append((label, res.reason))
+                else:
+                    res = PathResult("raise", exc=e, path=I.path, interp=I)
             except CutPath:
                 res = PathResult("cut", path=I.path, interp=I)
             except AbortPath:
